@@ -86,7 +86,9 @@ func c11PacketBinding(c *kc.Ctx, rng *kc.Rng) {
 				b.Deals[k].EncryptedShare[len(b.Deals[k].EncryptedShare)-1] ^= 1
 			}},
 			{"Deals dropped", func(b *dkg.DealBundle) { b.Deals = b.Deals[:len(b.Deals)-1] }},
-			{"Deals added", func(b *dkg.DealBundle) { b.Deals = append(b.Deals, dkg.Deal{ShareIndex: 77, EncryptedShare: []byte{1}}) }},
+			{"Deals added", func(b *dkg.DealBundle) {
+				b.Deals = append(b.Deals, dkg.Deal{ShareIndex: 77, EncryptedShare: []byte{1}})
+			}},
 			{"SessionID", func(b *dkg.DealBundle) { b.SessionID = append([]byte{b.SessionID[0] ^ 1}, b.SessionID[1:]...) }},
 			{"two encrypted shares swapped", func(b *dkg.DealBundle) {
 				b.Deals[0].EncryptedShare, b.Deals[1].EncryptedShare = b.Deals[1].EncryptedShare, b.Deals[0].EncryptedShare
@@ -116,7 +118,9 @@ func c11PacketBinding(c *kc.Ctx, rng *kc.Rng) {
 				b.Responses[0].Status, b.Responses[1].Status = b.Responses[1].Status, b.Responses[0].Status
 			}},
 			{"Responses dropped", func(b *dkg.ResponseBundle) { b.Responses = b.Responses[:len(b.Responses)-1] }},
-			{"Responses added", func(b *dkg.ResponseBundle) { b.Responses = append(b.Responses, dkg.Response{DealerIndex: 55, Status: dkg.Success}) }},
+			{"Responses added", func(b *dkg.ResponseBundle) {
+				b.Responses = append(b.Responses, dkg.Response{DealerIndex: 55, Status: dkg.Success})
+			}},
 			{"SessionID", func(b *dkg.ResponseBundle) { b.SessionID = append([]byte{b.SessionID[0] ^ 1}, b.SessionID[1:]...) }},
 		}
 		for _, m := range rm {
@@ -135,7 +139,9 @@ func c11PacketBinding(c *kc.Ctx, rng *kc.Rng) {
 			do func(b *dkg.JustificationBundle)
 		}{
 			{"DealerIndex", func(b *dkg.JustificationBundle) { b.DealerIndex = nodes[1].Index }},
-			{"Justifications[0].Share", func(b *dkg.JustificationBundle) { b.Justifications[0].Share = w.suite.Scalar().Add(s1, w.suite.Scalar().One()) }},
+			{"Justifications[0].Share", func(b *dkg.JustificationBundle) {
+				b.Justifications[0].Share = w.suite.Scalar().Add(s1, w.suite.Scalar().One())
+			}},
 			{"Justifications[last].Share", func(b *dkg.JustificationBundle) {
 				b.Justifications[len(b.Justifications)-1].Share = w.suite.Scalar().Add(s2, w.suite.Scalar().One())
 			}},
